@@ -23,6 +23,14 @@ CLAIMED = {
         'isize::rem_euclid, Option::is_some_and, BTreeSet::from specs; vstd closed law obeys_cmp::<FreeWord>() assumed (its content is proved as lemmas); '
         'derived Clone/PartialEq; Vec length <= isize::MAX/8; letters > isize::MIN is a stated precondition; From<I> and iter() not under contract; termination.',
    ref='5 C10', technique=TECH),
+ 'C18': dict(
+   text='Unbounded proof (Verus/Z3, modulus P symbolic) over the real bodies of PrimeResidueClass: representation invariant 0 <= value < P, '
+        'from(i64/i32) == n mod P, + - * neg are the operations of Z/P without overflow, inverse (extended Euclid, the one loop) returns the '
+        'multiplicative inverse for every prime P <= 3037000499, / is the field quotient; plus bit-precise complete Kani proofs for P in '
+        '{2, 3, 61, 3037000493} that supply concrete counterexamples.  Row-echelon shape safety is added by unit row_echelon.',
+   note='Trusted: Verus+Z3, vstd arithmetic lemmas, Kani/CBMC; domain assumption on the const generic P (2 <= P <= 3037000499, P prime = what valid() '
+        'accepts); num_traits Zero/One impls, valid() (f64) and the p-adic solver are not under contract; exact rank/determinant/null space/solve are not decided.',
+   ref='5 C18', technique=TECH + '; Kani (CBMC) loop-free harnesses for instantiated moduli'),
 }
 
 NA = {
